@@ -49,10 +49,24 @@ def step_runs(prop, tier, actions):
             need = need + (("witness:state_changed",) if prop != "C11" else ())
         if prop in ("C11",):
             need = ()
-        runs.append(Run(name=f"step:{a}:N={n}", harness=step.harness, cfg=dict(N=n, action=a, props=[prop]),
+        runs.append(Run(name=f"step:{a}:N={n}", harness=step.harness,
+                        cfg=dict(N=n, action=a, props=[prop], followup=False),
                         replay=step_replay.replay, need_tags=need,
                         bound=f"{n} symbolic node slots + 1 spare id, all argument tuples (every node pair / node "
                               f"incl. one id not in the graph, force on/off, unbounded integer times and ids)"))
+    if prop in ("C01", "C03", "C04", "C05", "C06"):
+        # induction-hypothesis audit (harness/step.py:followup): does every accepted edit / undo re-establish the
+        # clauses of Inv that OTHER properties own?  If not, a second symbolic user action follows from the broken
+        # states and this property is asserted after it (two-edit histories).  Smaller bound: the continuation
+        # multiplies the paths on a tree where the audit fails.
+        m = 3 if tier == "quick" else 4
+        for a in actions:
+            if a.startswith("User") and a != "UserUpdateNodeAttrs":
+                runs.append(Run(name=f"step:{a}:N={m}:two_edits", harness=step.harness,
+                                cfg=dict(N=m, action=a, props=[prop], followup=True), replay=step_replay.replay,
+                                need_tags=("accepted",),
+                                bound=f"{m} node slots; whole-invariant audit after the edit and after its undo, "
+                                      f"second symbolic user action (any of 5 kinds, all arguments) where it fails"))
     return runs
 
 
